@@ -22,7 +22,13 @@ WordOf(bs) == FromInt(bs[4], 8) \o FromInt(bs[3], 8) \o FromInt(bs[2], 8) \o Fro
 Addrs == Obs.addrs                                   \* sequence of addresses
 Beats == [i \in 1..Len(Obs.beats) |-> [d |-> WordOf(Obs.beats[i].d), s |-> [j \in 1..4 |-> Obs.beats[i].s[j]]]]
 Layout == [a \in {Obs.layout[i].a : i \in 1..Len(Obs.layout)} |-> Obs.layout[CHOOSE i \in 1..Len(Obs.layout) : Obs.layout[i].a = a].kind]
-PortOf == [a \in DOMAIN Layout |-> Obs.layout[CHOOSE i \in 1..Len(Obs.layout) : Obs.layout[i].a = a].port]
+Entry(a) == Obs.layout[CHOOSE i \in 1..Len(Obs.layout) : Obs.layout[i].a = a]
+PortOf == [a \in DOMAIN Layout |-> Entry(a).port]
+\* the word an "input" register's hardware signal shows (constant over a trace), driven on port i_in
+HasInput == "inval" \in DOMAIN Obs
+InVal == IF HasInput THEN WordOf(Obs.inval) ELSE Zeros(32)
+InputRegs == [a \in {x \in DOMAIN Layout : Layout[x] = "input"} |-> InVal]
+CntRegs == {x \in DOMAIN Layout : Layout[x] = "cnt"}
 
 VARIABLES tid, l, impl, mon, mst, err
 vars == <<tid, l, impl, mon, mst, err>>
@@ -31,6 +37,7 @@ Idle == [aw |-> [on |-> 0, a |-> 0], w |-> [on |-> 0, d |-> Zeros(32), s |-> Zer
 
 U32(n) == V("u", FromInt(n, 30) \o <<0, 0>>)
 Inputs(ms, it, rst) ==
+  (IF HasInput THEN "i_in" :> V("slv", InVal) ELSE EmptyFn) @@
   [x \in {"reset", "axi_awaddr", "axi_awprot", "axi_awvalid", "axi_wdata", "axi_wstrb", "axi_wvalid", "axi_bready",
           "axi_araddr", "axi_arprot", "axi_arvalid", "axi_rready"} |->
      CASE x = "reset" -> VSl(rst)
@@ -60,7 +67,7 @@ Init ==
   /\ tid \in 1..NT
   /\ l = 1
   /\ impl = ResetCycle(ResetCycle(InitState(Flat)))
-  /\ mon = MonInit(Layout)
+  /\ mon = MonInitWith(Layout, InputRegs)
   /\ mst = Idle
   /\ err = (IF impl.err # "" THEN "impl:" \o impl.err ELSE "none")
 
@@ -74,7 +81,9 @@ Step ==
       s3 == Drive(Flat, Drive(Flat, s1, "clk" :> VSl(1)), "clk" :> VSl(0))
       m2 == MonStep(Layout, mon, obs)
       \* registers that are routed to an output port (a register without port is observed through reads only)
-      ports == [a \in {x \in DOMAIN Layout : PortOf[x] # ""} |-> LET v == s3.sig[PortOf[a]].v IN IF Len(v) = 32 THEN v ELSE Zeros(16) \o v]
+      ports == [a \in {x \in DOMAIN Layout : PortOf[x] # ""} |-> LET v == s3.sig[PortOf[a]].v IN
+                   IF Len(v) = 32 THEN v ELSE IF Layout[a] = "cnt" THEN v \o Zeros(16) ELSE Zeros(16) \o v]
+      cports == [a \in CntRegs |-> [rd |-> s3.sig[Entry(a).rdport].v, wr |-> s3.sig[Entry(a).wrport].v]]
       ms2 == [aw |-> IF obs.awv = 1 /\ obs.awr = 1 THEN Idle.aw ELSE ms.aw,
               w |-> IF obs.wv = 1 /\ obs.wr = 1 THEN Idle.w ELSE ms.w,
               ar |-> IF obs.arv = 1 /\ obs.arr = 1 THEN Idle.ar ELSE ms.ar]
@@ -84,6 +93,7 @@ Step ==
                 ELSE IF s3.fired # {} THEN "assert-fired"
                 ELSE IF viol # "" THEN viol
                 ELSE IF ~PortsOk(Layout, m2, ports) THEN "register content is not what the completed / pending writes produce"
+                ELSE IF ~CountersOk(Layout, m2, cports) THEN "notification counters at rest differ from the number of completed accesses"
                 ELSE "none")
      /\ UNCHANGED tid
 
